@@ -298,7 +298,7 @@ static void runAll(Rng & rng, const Gen & G, const std::string & tier, bool forc
     }
 }
 
-long verif::verif_ncases(const std::string & tier) { return tier == "thorough" ? 1500 : 160; }
+long verif::verif_ncases(const std::string & tier) { return tier == "thorough" ? 800 : 160; }
 
 // hand-written low-index cases
 static Gen fixedCase(long idx) {
